@@ -1,46 +1,95 @@
 import Mltwist.Model.RiscvTables
 import Mltwist.Spec.Riscv
 import Mltwist.Lemmas.Opcode
+import Mltwist.Lemmas.RiscvDecodeGen
 /-
-Helper lemmas for C02.  (Proofs to be supplied.)
+Helper lemmas for C02.
+
+The table-independent reasoning is in `RiscvDecodeBits.lean` (little-endian words vs. byte
+patterns) and `RiscvDecodeGen.lean` (`parse`/`parseM` over any table satisfying a few decidable
+facts).  Here those facts are RE-CHECKED for the regenerated tables (`Generated/Riscv*.lean`) in all
+eight configurations by kernel evaluation (`decide +kernel`; no native code, no copied constants),
+and the C02 statements are instantiated.
 -/
 namespace Mltwist.Lemmas.RiscvDecode
 open Mltwist Mltwist.Riscv
 
 def Cfg (xlen : Nat) : Prop := xlen = 32 ∨ xlen = 64
 
+/-! ### the decidable facts, per configuration -/
+
+/-- table and reference have the same (name, match, mask) rows; patterns are at most four bytes
+with as many bytes as mask bytes; reference rows matched by a common word have the same name;
+mnemonics are distinct -/
+def RowFacts (xlen : Nat) (m a : Bool) : Prop :=
+  subB (triT (instructionSet xlen m a)) (triR (Spec.Rv.rows xlen m a)) = true ∧
+  subB (triR (Spec.Rv.rows xlen m a)) (triT (instructionSet xlen m a)) = true ∧
+  shapeB (instructionSet xlen m a) = true ∧
+  rowsUniqueB (triR (Spec.Rv.rows xlen m a)) = true ∧
+  ((instructionSet xlen m a).map (·.name)).Nodup
+
+instance (xlen : Nat) (m a : Bool) : Decidable (RowFacts xlen m a) := by
+  unfold RowFacts; infer_instance
+
+set_option maxRecDepth 100000 in
+theorem rowFacts32 : ∀ m a : Bool, RowFacts 32 m a := by decide +kernel
+
+set_option maxRecDepth 100000 in
+theorem rowFacts64 : ∀ m a : Bool, RowFacts 64 m a := by decide +kernel
+
+set_option maxRecDepth 100000 in
+theorem matcherFacts32 : ∀ m a : Bool, MatcherFacts (instructionSet 32 m a) := by decide +kernel
+
+set_option maxRecDepth 100000 in
+theorem matcherFacts64 : ∀ m a : Bool, MatcherFacts (instructionSet 64 m a) := by decide +kernel
+
+theorem rowFacts (xlen : Nat) (hx : Cfg xlen) (m a : Bool) : RowFacts xlen m a := by
+  rcases hx with rfl | rfl
+  · exact rowFacts32 m a
+  · exact rowFacts64 m a
+
+theorem matcherFacts (xlen : Nat) (hx : Cfg xlen) (m a : Bool) :
+    MatcherFacts (instructionSet xlen m a) := by
+  rcases hx with rfl | rfl
+  · exact matcherFacts32 m a
+  · exact matcherFacts64 m a
+
+/-! ### the statements of C02 -/
+
 theorem table_eq_spec (xlen : Nat) (hx : Cfg xlen) (m a : Bool) (r : String × Nat × Nat) :
     r ∈ (instructionSet xlen m a).map (fun e => (e.name, e.wordMatch, e.wordMask)) ↔
     r ∈ (Spec.Rv.rows xlen m a).map (fun e => (e.name, e.mtch, e.mask)) := by
-  sorry
+  obtain ⟨h1, h2, -⟩ := rowFacts xlen hx m a
+  exact ⟨(subB_iff _ _).1 h1 r, (subB_iff _ _).1 h2 r⟩
 
 theorem names_nodup (xlen : Nat) (hx : Cfg xlen) (m a : Bool) :
-    ((instructionSet xlen m a).map (·.name)).Nodup := by
-  sorry
+    ((instructionSet xlen m a).map (·.name)).Nodup :=
+  (rowFacts xlen hx m a).2.2.2.2
 
 theorem parse_short (tbl : List Entry) (addr : Nat) (bs : List UInt8) (h : bs.length < 4) :
     parse tbl addr bs = .short := by
-  sorry
+  simp [parse, h]
 
 theorem parse_unknown_iff (xlen : Nat) (hx : Cfg xlen) (m a : Bool) (addr : Nat) (bs : List UInt8)
     (h : 4 ≤ bs.length) :
-    parse (instructionSet xlen m a) addr bs = .unknown ↔ Spec.Rv.decode xlen m a (wordOf bs) = none := by
-  sorry
+    parse (instructionSet xlen m a) addr bs = .unknown ↔ Spec.Rv.decode xlen m a (wordOf bs) = none :=
+  parse_unknown_gen _ _ (rowFacts xlen hx m a).2.2.1 (table_eq_spec xlen hx m a) addr bs h
 
 theorem parse_ok_iff (xlen : Nat) (hx : Cfg xlen) (m a : Bool) (addr : Nat) (bs : List UInt8)
     (h : 4 ≤ bs.length) (n : String) :
     (∃ e, e ∈ instructionSet xlen m a ∧ e.name = n ∧
         parse (instructionSet xlen m a) addr bs = .ok e ⟨addr, wordOf bs⟩) ↔
-      Spec.Rv.decode xlen m a (wordOf bs) = some n := by
-  sorry
+      Spec.Rv.decode xlen m a (wordOf bs) = some n :=
+  parse_ok_gen _ _ (rowFacts xlen hx m a).2.2.1 (table_eq_spec xlen hx m a)
+    (rowFacts xlen hx m a).2.2.2.1 addr bs h n
 
 theorem parse_trailing (xlen : Nat) (hx : Cfg xlen) (m a : Bool) (addr : Nat) (bs : List UInt8)
     (h : 4 ≤ bs.length) :
-    parse (instructionSet xlen m a) addr bs = parse (instructionSet xlen m a) addr (bs.take 4) := by
-  sorry
+    parse (instructionSet xlen m a) addr bs = parse (instructionSet xlen m a) addr (bs.take 4) :=
+  parse_trailing_gen _ (rowFacts xlen hx m a).2.2.1 addr bs h
 
 theorem parseM_eq_parse (xlen : Nat) (hx : Cfg xlen) (m a : Bool) (addr : Nat) (bs : List UInt8) :
-    parseM (instructionSet xlen m a) addr bs = some (parse (instructionSet xlen m a) addr bs) := by
-  sorry
+    parseM (instructionSet xlen m a) addr bs = some (parse (instructionSet xlen m a) addr bs) :=
+  parseM_gen _ (matcherFacts xlen hx m a) addr bs
 
 end Mltwist.Lemmas.RiscvDecode
